@@ -1,7 +1,9 @@
-"""C38: Limiter.tla exhaustive (limit 3 / limit 1 with three callers / two identifiers) + negative configs; TLC-generated
-scenarios (who reads the clock when, whose script runs when, how far the clock advances) executed in real time against
-the real rueidislimiter over fakeredis/luamini; every recorded script execution and result recomputed by LimiterTrace.tla
-from real millisecond values, with the properties evaluated at every step."""
+"""C38: Limiter.tla exhaustive (limit 3 / limit 1 with three callers / two identifiers / per-call options: limits below
+and above the default, other windows, option lists, several identifiers with different limits) + negative configs;
+TLC-generated scenarios (who reads the clock when with which option list, whose script runs when, how far the clock
+advances) executed in real time against the real rueidislimiter over fakeredis/luamini; every recorded script execution
+and result recomputed by LimiterTrace.tla from real millisecond values - the limit and window in force for a call are
+derived by the specification from the options the call passed - with the properties evaluated at every step."""
 import os, random, shutil
 from lib import vlib
 from checks import addons1common as ac
@@ -9,8 +11,27 @@ from checks import addons1common as ac
 LEVEL = 'model_checking'
 
 NEG = [('IncrBeforeReset', 'AdmittedPerWindow'), ('AllowOneMore', 'AdmittedPerWindow'), ('NoZeroOnReset', 'RemainingExact'),
-       ('Stale', 'ResetIdentifiesWindow')]
-WINDOW_MS = 1150
+       ('Stale', 'ResetIdentifiesWindow'),
+       # per-call options
+       ('VerdictFromDefault', 'AdmittedPerWindow'), ('VerdictFromDefault_order', 'AdmittedWithinCallLimit'),
+       ('RemainingFromDefault', 'RemainingExact'),
+       ('WindowFromDefault', 'ResetIsNowPlusWindow'), ('FirstOptionWins', 'AllowedRule')]
+WINDOW_MS = 1150     # the default window W = 2 ticks in real time (limiterdrv: w ticks = w*500+150 ms)
+
+
+def discriminating(case):
+    """Stratification of the sample only (no verdict depends on it): does the scenario the specification predicts
+    contain a call whose outcome differs between its own limit/window and the configured default?"""
+    lim0, w0 = case['limit'], case['w']
+    for s in case['steps']:
+        if s['a'] != 'Ret':
+            continue
+        lo, hi = min(s['lim'], lim0), max(s['lim'], lim0)
+        if lo != hi and (lo < s['cur'] <= hi or (s['n'] == 0 and lo <= s['cur'] < hi)):
+            return True
+        if s['wasreset'] and s['w'] != w0:
+            return True
+    return False
 
 
 def run(ctx):
@@ -20,9 +41,12 @@ def run(ctx):
         ctx.run_tlc('addons', 'Limiter', 'Limiter_MC_quick.cfg', workers=8, timeout=900)
         ctx.run_tlc('addons', 'Limiter', 'Limiter_MC_quick_l1.cfg', workers=8, timeout=900)
         ctx.run_tlc('addons', 'Limiter', 'Limiter_MC_quick_ids.cfg', workers=8, timeout=900)
+        ctx.run_tlc('addons', 'Limiter', 'Limiter_MC_quick_opts.cfg', workers=8, timeout=900)
+        ctx.run_tlc('addons', 'Limiter', 'Limiter_MC_quick_opts_ids.cfg', workers=8, timeout=900)
         if th:
             ctx.run_tlc('addons', 'Limiter', 'Limiter_MC_thorough.cfg', workers=8, timeout=2400)
             ctx.run_tlc('addons', 'Limiter', 'Limiter_MC_thorough_l1.cfg', workers=8, timeout=2400)
+            ctx.run_tlc('addons', 'Limiter', 'Limiter_MC_thorough_opts.cfg', workers=8, timeout=2400)
         for b, inv in NEG:
             ctx.run_tlc('addons', 'Limiter', 'Limiter_MC_neg_%s.cfg' % b, expect_violation=inv, workers=4, timeout=600)
 
@@ -33,15 +57,36 @@ def run(ctx):
         # limit 3, two callers, two calls: every scenario enumerated, a seeded sample (quick) or all of them executed
         c3, r3 = ac.gen_cases(ctx, 'LimiterGen', 'Limiter_Gen2_l3.cfg', timeout=1500)
         ctx.extra['scenarios_enumerated_limit3'] = len(c3)
+        nsim = 2500 if th else 120
         # limit 1, three callers, three calls: random behaviours of the same specification
-        c1, _ = ac.gen_cases(ctx, 'LimiterGen', 'Limiter_Gen3_l1.cfg', simulate=(2500 if th else 120), depth=14, seed=ctx.seed,
-                             timeout=1500)
+        c1, _ = ac.gen_cases(ctx, 'LimiterGen', 'Limiter_Gen3_l1.cfg', simulate=nsim, depth=14, seed=ctx.seed, timeout=1500)
         # limit 3, three calls incl. key expiry: random behaviours
-        c3b, _ = ac.gen_cases(ctx, 'LimiterGen', 'Limiter_Gen_l3.cfg', simulate=(2500 if th else 120), depth=14, seed=ctx.seed + 7,
-                              timeout=1500)
-        n3, n1, n3b = (len(c3), 1000, 1000) if th else (130, 70, 60)
+        c3b, _ = ac.gen_cases(ctx, 'LimiterGen', 'Limiter_Gen_l3.cfg', simulate=nsim, depth=14, seed=ctx.seed + 7, timeout=1500)
+        # per-call options: default 3 with limits 1, 2, 4, 5 and windows of 1, 2, 3 ticks, lists of two options, three calls
+        # on one identifier; four calls on two identifiers; (thorough) default 1 with larger per-call limits, three callers
+        co, _ = ac.gen_cases(ctx, 'LimiterGen', 'Limiter_Gen3_opts.cfg', simulate=(4000 if th else 400), depth=14,
+                             seed=ctx.seed + 11, timeout=1500)
+        coi, _ = ac.gen_cases(ctx, 'LimiterGen', 'Limiter_Gen4_opts_ids.cfg', simulate=(2500 if th else 200), depth=18,
+                              seed=ctx.seed + 13, timeout=1500)
+        co1 = []
+        if th:
+            co1, _ = ac.gen_cases(ctx, 'LimiterGen', 'Limiter_Gen3_opts_l1.cfg', simulate=2500, depth=14, seed=ctx.seed + 17,
+                                  timeout=1500)
+        n3, n1, n3b, no, noi, no1 = (len(c3), 1000, 1000, 1500, 800, 800) if th else (80, 45, 45, 60, 30, 0)
         pick = lambda cs, n: cs if len(cs) <= n else rnd.sample(cs, n)
-        allc = pick(c3, n3) + pick(c1, n1) + pick(c3b, n3b)
+
+        def pick_opts(cs, n):
+            # two thirds of the sample from the scenarios in which the per-call option decides an outcome
+            dis = [c for c in cs if discriminating(c)]
+            rest = [c for c in cs if not discriminating(c)]
+            a = pick(dis, (2 * n + 2) // 3)
+            return a + pick(rest, n - len(a))
+        so, soi, so1 = pick_opts(co, no), pick_opts(coi, noi), pick_opts(co1, no1)
+        ctx.extra['option_scenarios_generated'] = len(co) + len(coi) + len(co1)
+        ctx.extra['option_scenarios_executed'] = len(so) + len(soi) + len(so1)
+        ctx.extra['option_scenarios_executed_where_the_option_decides_an_outcome'] = sum(
+            1 for c in so + soi + so1 if discriminating(c))
+        allc = pick(c3, n3) + pick(c1, n1) + pick(c3b, n3b) + so + soi + so1
         rnd.shuffle(allc)
         p = os.path.join(d, 'cases.ndjson')
         ac.write_cases(p, allc)
